@@ -117,3 +117,14 @@ func init() {
 	register("C13", rulePDF417Encoder)
 	register("C11", rulePDF417Encoder)
 }
+
+func init() {
+	register("C14", ruleCheckValue)
+	register("C11", ruleCheckValue)
+	register("C07", ruleRuneKeys)
+	register("C10", ruleRuneKeys)
+}
+
+func init() {
+	register("C11", ruleImageMethods)
+}
